@@ -557,15 +557,15 @@ impl Prop for P {
     fn plan(tier: Tier) -> Plan {
         match tier {
             Tier::Quick => Plan {
-                workers: 8,
-                cases_per_worker: 2500,
-                timeout_s: 1200,
+                workers: 16,
+                cases_per_worker: 20000,
+                timeout_s: 1800,
                 max_shrink_iters: 3000,
             },
             Tier::Thorough => Plan {
                 workers: 16,
-                cases_per_worker: 60000,
-                timeout_s: 7200,
+                cases_per_worker: 300000,
+                timeout_s: 14400,
                 max_shrink_iters: 3000,
             },
         }
